@@ -23,12 +23,34 @@ SIZES = [(5, 1), (5, 2), (5, 4), (3, 3), (1, 2), (8, 3), (2, 2)]
 KEYS = ["up", "down", "page up", "page down", "home", "end", "x"]
 POSITIONS = [-100, -2, -1, 0, 1, 2, 100]
 
-CONTENTS = ["t1", "t3", "t7", "twrap", "pile", "icons", "fixed"]
+CONTENTS = ["t1", "t3", "t7", "twrap", "pile", "icons", "fixed", "helpfield"]
 BARS = [None, ("right", 1), ("left", 1), ("right", 2)]
+
+
+class HelpField(urwid.Widget):
+    """a flow-only form field that shows a help line below itself while it is in focus: its height depends on the focus flag"""
+
+    _sizing = frozenset([urwid.FLOW])
+    _selectable = True
+
+    def __init__(self, plain, focused=None):
+        super().__init__()
+        self.plain, self.focused = plain, focused or plain
+
+    def rows(self, size, focus=False):
+        return (self.focused if focus else self.plain).count("\n") + 1
+
+    def render(self, size, focus=False):
+        return urwid.Text(self.focused if focus else self.plain).render(size)
+
+    def keypress(self, size, key):
+        return key
 
 
 def mk_inner(kind, variant=0):
     T = urwid.Text
+    if kind == "helpfield":
+        return urwid.Pile([HelpField("p0\np1"), HelpField("h2", "h2\nh3"), HelpField("p4\np5" if not variant else "p4")], focus_item=1)
     if kind == "t1":
         return T("a0" if not variant else "a0\nb1\nb2\nb3")
     if kind == "t3":
@@ -346,10 +368,15 @@ class Spec:
                 try:
                     full, fcur = full_rows(st, max(cw, 1))
                 except Exception:
-                    fcur = None
+                    full, fcur = None, None
                 h = st.size[1]
                 visible_before = fcur is None or (p_before <= fcur[1] < p_before + h)
-                if visible_before:
+                # (content that got shorter by the event itself - a focus-dependent height - forces the position down: not a second use of the key)
+                try:
+                    clamped = max(0, len(full) - h) < p_before
+                except Exception:
+                    clamped = False
+                if visible_before and not clamped:
                     V("no-double-use", f"{op!r} was handled by the wrapped widget ({handled}) and the view also scrolled from {p_before} to {p_after}"
                       f" although the cursor (row {fcur[1] if fcur else None}) was visible")
         return True
